@@ -704,6 +704,11 @@ where
     /// dealer, but implementations *MUST* make sure that all participants have
     /// a consistent view of this commitment in practice.
     fn try_from(secret_share: SecretShare<C>) -> Result<Self, Error<C>> {
+        // The threshold is the number of coefficients. Don't truncate it: a
+        // commitment too long for `u16` can't belong to any valid threshold.
+        let min_signers = u16::try_from(secret_share.commitment.coefficients().len())
+            .map_err(|_| Error::IncorrectNumberOfCommitments)?;
+
         let (verifying_share, verifying_key) = secret_share.verify()?;
 
         Ok(KeyPackage {
@@ -712,7 +717,7 @@ where
             signing_share: secret_share.signing_share,
             verifying_share,
             verifying_key,
-            min_signers: secret_share.commitment.min_signers(),
+            min_signers,
         })
     }
 }
